@@ -20,6 +20,15 @@ def run(ctx):
     if r.invariant != "NeverIndexedPath":
         raise Infra("the bounded model never reaches the indexed lookup path: %s" % (r.invariant or r.error or "no violation"))
 
+    # the index is iterated in KEY order (bytewise on the uvarint-encoded height, not numeric): stopping at the first entry
+    # above the head instead of skipping it loses transactions - shown on the model with radix 2
+    r = ctx.tlc(cc.SUB, "MC_ChainIndex", cfg="MC_ChainIndex_breakiter.cfg", workers=2, timeout=300, count=False,
+                label="deliberately wrong design (break at an entry above the head): must be violated")
+    if r.invariant != "LookupAgrees":
+        raise Infra("the 'break' variant of the index iteration was not caught by LookupAgrees: %s"
+                    % (r.invariant or r.error or "no violation"))
+    ctx.cov["design_teeth"] = "index iteration that stops at an entry above the head violates LookupAgrees (%d states)" % r.distinct
+
     # 2. binding demonstrations: lookups (repository level) and verdicts (consensus level)
     runs, stats, how = cc.record(ctx, "chainindex", ["-mode", "treeclean", "-blocks", "12"], "demo-repo", 1, seed_offset=977)
     if cc.validate_runs(ctx, runs, stats, "demo-repo", how) != [0]:
@@ -39,6 +48,13 @@ def run(ctx):
     runs, stats, how = cc.record(ctx, "chainindex", ["-mode", "long"], "long", 2 if q else 20)
     acc = cc.validate_runs(ctx, runs, stats, "long", how, batch=4)
     repo_stats += [stats[i] for i in acc]
+    # ~270-block double chain: the same txs at heights 126..131 on one branch and 254..259 on the other (both sides of the
+    # uvarint length boundary 127|128 and of 255|256 where key order and numeric order part), looked up from heads of both
+    # branches through both paths
+    runs, stats, how = cc.record(ctx, "chainindex", ["-mode", "long300"], "long300", 1 if q else 8, seed_offset=9)
+    acc = cc.validate_runs(ctx, runs, stats, "long300", how, batch=2)
+    repo_stats += [stats[i] for i in acc]
+    ctx.cov["repo_max_height"] = max([s["maxHeight"] for s in repo_stats] or [0])
     runs, stats, how = cc.record(ctx, "chainindex", ["-mode", "treeclean", "-blocks", "12" if q else "15"], "trees",
                                  8 if q else 200, seed_offset=3)
     acc = cc.validate_runs(ctx, runs, stats, "trees", how, batch=40)
